@@ -261,10 +261,14 @@ func (r ValueRange) Includes(v Value) Value {
 	unknownResult := UnknownVal(Bool).RefineNotNull()
 
 	if r.raw.null() == tristateTrue {
-		if v.IsNull() {
+		switch {
+		case v.IsNull():
 			return True
-		} else {
+		case definitelyNotNull(v):
 			return False
+		default:
+			// An unknown value that might still turn out to be null.
+			return unknownResult
 		}
 	}
 	if r.raw.null() == tristateFalse {
